@@ -48,6 +48,33 @@ def gen_unstructured(tape, dim=2, points_only=False):
     return {"type": "unstructured", "points": pts, "loc": tape.choice(["cells", "points"]), "order": tape.choice(["C", "F"])}
 
 
+def gen_mixed_mesh(tape):
+    """unstructured 2-D mesh mixing triangles and quads (the cell matrix is padded with -1 for triangles)"""
+    nx, ny = tape.rng_int(2, 4), tape.rng_int(2, 3)
+    pts = []
+    for j in range(ny + 1):
+        for i in range(nx + 1):
+            pts.append([i * 1.0 + 0.125 * ((i * 3 + j) % 3), j * 1.0 + 0.125 * ((i + 2 * j) % 3)])
+    cells, types = [], []
+    for j in range(ny):
+        for i in range(nx):
+            a = j * (nx + 1) + i
+            b, d, e = a + 1, a + nx + 1, a + nx + 2
+            if tape.chance(1, 2):
+                cells += [[a, b, e, -1], [a, e, d, -1]]
+                types += [2, 2]           # CellType.TRI
+            else:
+                cells.append([a, b, e, d])
+                types.append(3)           # CellType.QUAD
+    if all(t == 3 for t in types):
+        a, b, e, d = cells.pop()
+        types.pop()
+        cells += [[a, b, e, -1], [a, e, d, -1]]
+        types += [2, 2]
+    return {"type": "unstructured", "points": pts, "cells": cells, "cell_types": types, "loc": "cells",
+            "order": tape.choice(["C", "F"]), "mixed": True}
+
+
 def generate(tape, tier="quick"):
     method = tape.weighted([("nearest", 5), ("linear", 3), ("linear_fill", 2)])
     if method == "nearest":
@@ -60,6 +87,8 @@ def generate(tape, tier="quick"):
             k = "structured" if dim != 2 else k
         if k == "structured":
             return gen_structured(tape, dim=dim, max_len=5, min_len=2, allow_degenerate=False)
+        if k == "unstructured" and dim == 2 and tape.chance(1, 2):
+            return gen_mixed_mesh(tape)
         return gen_unstructured(tape, dim, points_only=(k == "points"))
     src = one("src")
     rel = tape.weighted([("other", 6), ("relayout", 2)])
@@ -87,8 +116,10 @@ def locations(sp, G):
     pts = np.asarray(sp["points"], dtype=float)
     if sp["type"] == "points" or sp.get("loc") == "points":
         return pts, (len(pts),), sp.get("order", "C")
-    cells = np.asarray(sp["cells"])
-    return pts[cells].mean(axis=1), (len(cells),), sp.get("order", "C")
+    cells = sp["cells"]
+    # centre = mean of the cell's REAL nodes (a padded -1 is not a node)
+    cen = np.array([pts[[n for n in cell if n >= 0]].mean(axis=0) for cell in cells])
+    return cen, (len(cells),), sp.get("order", "C")
 
 
 def with_cells(sp):
